@@ -21,7 +21,9 @@ MANIFEST = {
     "technique": "Rocq proof over go2coq-regenerated definitions + model/code correspondence + directed boundary search on the implementation",
     "design_ref": "3 C13",
     "hooks": ["datacodec/verif_hooks.go (build tag verif): name -> function table of the unexported conversion code"],
-    "note": "strconv, math/big text and float conversions, IEEE narrowing and time formatting are oracles (Section variable O : oracles) with stated contracts.",
+    "note": "strconv, math/big text and float conversions, IEEE narrowing and time formatting are oracles (Section variable O : oracles) with stated contracts. "
+            "A *big.Float destination carries the precision the caller preset (godst D_pbigfloat isnil prec); big.Float.SetFloat64 is the oracle "
+            "(prec, bits) -> (value held, Acc()), with the contract 'Acc() = Exact iff the value held is the argument' - exactness is not assumed.",
 }
 
 
@@ -86,7 +88,8 @@ def oracle_tables(recs):
         elif f == "BigFloat_Float64":
             t[f].append("((%s, %s), (%s, %s))" % (zlit(r["bf"][0]), zlit(r["bf"][1]), zlit(r["y"]), zlit(r["acc"])))
         elif f == "BigFloat_SetFloat64":
-            t[f].append("(%s, (%s, %s))" % (zlit(r["x"]), zlit(r["bf"][0]), zlit(r["bf"][1])))
+            # keyed by (precision the destination was preset to, float64 bits): (value held afterwards, Acc())
+            t[f].append("((%s, %s), ((%s, %s), %s))" % (zlit(r["prec"]), zlit(r["x"]), zlit(r["bf"][0]), zlit(r["bf"][1]), zlit(r["acc"])))
     fields = "; ".join("t_%s := [%s]" % (k, "; ".join(v)) for k, v in t.items())
     return "Definition T : oracle_tables := {| %s |}.\nDefinition OI : oracles := table_oracles T.\n" % fields
 
@@ -106,6 +109,15 @@ def f64_real(bits):
     if math.isinf(f) or math.isnan(f):
         return f
     return Fraction(f)
+
+
+def godst(r):
+    """a destination record as a godst term (a *big.Float destination carries the precision it was preset to)"""
+    if r["c"] == "D_other":
+        return "D_other"
+    if r["c"] == "D_pbigfloat":
+        return "(D_pbigfloat %s %s)" % (b(r["dnil"]), zlit(r["prec"]))
+    return "(%s %s)" % (r["c"], b(r["dnil"]))
 
 
 def chunks(lst, n):
@@ -165,7 +177,7 @@ def build_cases(recs, table):
                     cases = "; ".join("(%s, %s)" % (goval(r["c"], r["p"]), "Some (%s, %s)" % (zlit(r["val"]), b(r["nil"])) if r["ok"] else "None") for r in sub)
                     group(gid, sub, "map (fun c => opt_eqb zb_eqb (res_opt (%s (fst c))) (snd c)) [%s]" % (app(name), cases))
             elif k == "from":
-                cases = "; ".join("(%s, %s, %s, %s)" % (zlit(r["val"]), b(r["null"]), "D_other" if r["c"] == "D_other" else "(%s %s)" % (r["c"], b(r["dnil"])),
+                cases = "; ".join("(%s, %s, %s, %s)" % (zlit(r["val"]), b(r["null"]), godst(r),
                                                         "Some (Some %s)" % stored(r["st"]) if r["ok"] else "None") for r in sub)
                 group(gid, sub, "map (fun c => match c with (v, n, d, e) => opt_eqb (opt_eqb goval_eqb) (res_opt (%s v n d)) e end) [%s]" % (app(name), cases))
             elif k == "w":
@@ -219,7 +231,10 @@ def check(run):
         broken.append("props/C13.v or a dependency no longer checks: %s %s" % (pr["failed_at"], pr["errors"]))
     run.coverage["trusted_base"] += [
         "oracles (coq/base/GoNum.v, Section variable O): strconv.ParseInt/FormatInt, big.Int SetString/Text, IEEE-754 float64<->float32 conversion and ==, "
-        "math.IsNaN, big.Float Float64/SetFloat64, time Parse/Format; each theorem that needs one states its contract as hypothesis (oracle_contract)",
+        "math.IsNaN, big.Float Float64/SetFloat64+Acc (per preset precision of the destination), time Parse/Format; each theorem that needs one states its "
+        "contract as hypothesis (oracle_contract; the float premises: widening exact, == sound, IsNaN sound, NaN narrows to NaN, Float64 Exact => same value, "
+        "SetFloat64: Acc() = Exact <=> value held = argument)",
+        "the rounding mode of a *big.Float destination is not an input of the model (the SetFloat64 contract holds for every mode; the search runs 4 modes)",
         "model of time.Time as the instant (unix seconds, nanoseconds) and of *big.Int as an unbounded integer (coq/base/GoNum.v, GoInt.v)",
         "coq/model/NumWire.v: hand model of writeBigInt/readBigInt, compared with the compiled functions on every run; proved equal to coq/model/CqlWire.v's model, whose varint theorems (proofs/CqlVarintProofs.v, cql area) C13_varint_roundtrip imports",
         "platform: strconv.IntSize = 64",
@@ -323,7 +338,10 @@ def check(run):
                             "Encode/Decode was judged with math/big on all boundary values; floating point: *big.Float -> double/float and float64 -> float with values "
                             "that are not exactly representable (below 2^-1022 [2^-126] and off the subnormal grid 2^-1074 [2^-149], more than 53 [24] significant "
                             "bits, between MaxFloat64 [MaxFloat32] and the overflow threshold, at and above it) in directed classes and seeded random values, "
-                            "each judged by exact comparison of the stored IEEE value with the source: a conversion that loses information must be refused")
+                            "each judged by exact comparison of the stored IEEE value with the source: a conversion that loses information must be refused; "
+                            "double -> *big.Float destinations preset to precision 0, 1, 10, 24, 52, 53, 64, 200 (4 rounding modes below 53 bits) with mantissas of "
+                            "exactly 1..53 significant bits: no error => the destination holds the wire value exactly (big.Float.Cmp); NaN bit patterns (quiet, "
+                            "signalling, negative, payloads) through float64 -> CQL float, CQL double -> *float32, float32 -> CQL double -> *float32: error or NaN")
     run.coverage["samples"] = [r for r in recs if r["k"] in ("to", "from")][:3] + [{"pairs": (summ or {}).get("pairs", [])[:12]}]
     run.coverage["exhaustive"] = False
     run.coverage["input_distribution"] = dict([(k, v) for k, v in counts.items() if not isinstance(v, dict)] +
@@ -338,6 +356,11 @@ def check(run):
     if bfc:
         run.note("*big.Float -> double: %s values (directed classes subnormal / >53 bits / top of the range + seeded random), %s not representable, "
                  "%s refused, %s accepted" % (bfc.get("cases"), bfc.get("not_representable"), bfc.get("refused"), bfc.get("accepted")))
+        run.note("double -> *big.Float of preset precision (0, 1, 10, 24, 52, 53, 64, 200): %s decodes, %s of values the destination cannot hold exactly, "
+                 "%s refused, %s accepted (each accepted one compared exactly)" % (bfc.get("dec_cases"), bfc.get("dec_not_representable"), bfc.get("dec_refused"),
+                                                                                  bfc.get("dec_accepted")))
+        run.note("NaN through the narrowing paths (float64 -> float, double -> *float32, float32 -> double -> *float32, float -> *float64): %s cases, %s delivered "
+                 "(each as NaN), %s refused" % (bfc.get("nan_cases"), bfc.get("nan_accepted"), bfc.get("nan_refused", 0)))
 
     # ---- verdict
     known = vlib.known_findings("C13")
@@ -356,7 +379,9 @@ def check(run):
                                "how_to_replay": "datacodec.<Codec of the CQL type>.Encode / Decode (protocol v5) with a Go value of the named type holding the value; "
                                                 "compare with the expected mathematical value. A *big.Float value is written m * 2^e: "
                                                 "new(big.Float).SetMantExp(new(big.Float).SetInt(m), e); e.g. datacodec.Double.Encode(x, primitive.ProtocolVersion5) "
-                                                "must return an error unless the 8 bytes are exactly x",
+                                                "must return an error unless the 8 bytes are exactly x. A destination '*big.Float(prec=P[,mode=M])' is "
+                                            "new(big.Float).SetPrec(P)[.SetMode(big.M)]: datacodec.Double.Decode(<8 bytes of the value>, dest, v5) must return an error "
+                                            "unless dest.Cmp(new(big.Float).SetFloat64(value)) == 0",
                                "broken": broken})
     if broken and not run.violations:
         # a mismatch between model and code is itself located on a concrete input
